@@ -142,7 +142,8 @@ def index_capture(ctx):
             kinds = {k for k, _ in first}
             # is the captured value used as an index at all?  (flows to the return value or into an index table)
             allowed = {"type": {"ty", "import_type", "alias", "export_type", "type_defined", "defined_type", "function", "component", "instance", "export", "import"},
-                       "instance": {"import_type", "import", "instantiate", "alias"}, "core_type": {"core_type"}}[space]
+                       # (an instance *export* inside a component/instance type also defines the next instance index)
+                       "instance": {"import_type", "import", "instantiate", "alias", "export_type", "export"}, "core_type": {"core_type"}}[space]
             ok = bool(kinds) and kinds <= allowed | {"<return>"} and kinds != {"<return>"}
             why = "captured immediately before the emission it numbers (%s)" % sorted(kinds - {"<return>"})
             if not ok:
